@@ -278,7 +278,9 @@ impl M128 {
             if rem == 0 {
                 break;
             }
-            x += 1 << rem.trailing_zeros();
+            // The start value is not reduced modulo 2^k: the sum may exceed 2^128
+            // (e.g. n = (2^129+1)/3); only its value modulo 2^128 matters.
+            x = x.wrapping_add(1 << rem.trailing_zeros());
         }
         assert!(n.wrapping_mul(x) == 1);
         1 + !x
